@@ -15,6 +15,7 @@ import FuraxModel.Einsum
 import FuraxModel.EinsumEval
 import FuraxModel.Diagonal
 import FuraxModel.StokesArith
+import FuraxModel.ComplexDot
 import FuraxModel.Acquisition
 import FuraxModel.Valid
 namespace Furax
@@ -263,8 +264,19 @@ def decOperand : SExp → Option (StokesArith.Operand Rat)
   | atom "other" => some .other
   | e => (decSVal e).map .stokes
 
+/-- one complex entry is the pair `(re im)` of two rationals (each written `n` or `n/d`) -/
+def decGRat : SExp → Option ComplexDot.GRat
+  | list [re, im] => do some ⟨← re.rat?, ← im.rat?⟩
+  | _ => none
+
+/-- one leaf: the list of its (flattened) complex entries `((re im) …)` -/
+def decGRats (e : SExp) : Option (List ComplexDot.GRat) := e.list?.bind (·.mapM decGRat)
+
 /-- `(stokes-op OP self operand)` = `self OP operand`; `(stokes-rop OP self operand)` = `operand OP self`;
-`(stokes-class NAME)`; `(from-stokes nargs (kw…))`; `(tree-dot ((x…)…) ((y…)…))` -/
+`(stokes-class NAME)`; `(from-stokes nargs (kw…))`; `(tree-dot ((x…)…) ((y…)…))`;
+`(tree-dot-complex X Y)` = `furax.tree.dot(X, Y)` on complex leaves: a pytree is the list of its leaves, a leaf the
+list of its flattened entries, an entry the pair `(re im)` of rationals, e.g.
+`(tree-dot-complex (((1 2) (0 3)) ((1/2 0))) (((2 -1) (1 1)) ((4 0))))`; the reply is `(ok (re im))` -/
 def handleStokesArith (cmd : String) (args : List SExp) : Option SExp :=
   match cmd, args with
   | c, [atom op, self, other] =>
@@ -291,6 +303,11 @@ def handleStokesArith (cmd : String) (args : List SExp) : Option SExp :=
     let xs ← x.list?.bind (·.mapM SExp.rats?)
     let ys ← y.list?.bind (·.mapM SExp.rats?)
     some (list [atom "ok", ofRat (StokesArith.dot xs ys)])
+  | "tree-dot-complex", [x, y] => do
+    let xs ← x.list?.bind (·.mapM decGRats)
+    let ys ← y.list?.bind (·.mapM decGRats)
+    let r := ComplexDot.treeDot xs ys
+    some (list [atom "ok", list [ofRat r.re, ofRat r.im]])
   | _, _ => none
 
 /-- `(rotmat c1 s1 c2 s2 c3 s3)` → the 9 entries; `(rotate c1 s1 c2 s2 c3 s3 (x y z))`;
